@@ -41,6 +41,12 @@ def protect_html(s):
     s = re.sub(r'\n', r'<br>\n', s)
     return s
 
+#   text inside a title="..." attribute:
+#   a line break must not become <br> (the page is split at these later on)
+#
+def protect_title(s):
+    return protect_html(s).replace('<br>\n', '&#10;')
+
 #   generate HTML tag from LT message
 #
 def begin_match(m, lin, unsure):
@@ -50,21 +56,21 @@ def begin_match(m, lin, unsure):
     end = beg + json_get(cont, 'length', int)
     rule = json_get(m, 'rule', dict)
 
-    msg = protect_html(json_get(m, 'message', str)) + '\n'
+    msg = protect_title(json_get(m, 'message', str)) + '\n'
 
-    msg += protect_html('Line ' + str(lin) + ('+' if unsure else '')
+    msg += protect_title('Line ' + str(lin) + ('+' if unsure else '')
                         + ': >>>' + txt[beg:end] + '<<<')
     rule_id = json_get(rule, 'id', str)
     if 'subId' in rule:
             rule_id += '[' + json_get(rule, 'subId', str) + ']'
-    msg += protect_html('    (Rule ID: ' + rule_id + ')') + '\n'
+    msg += protect_title('    (Rule ID: ' + rule_id + ')') + '\n'
 
     repls = '; '.join(json_get(r, 'value', str)
                         for r in json_get(m, 'replacements', list))
-    msg += 'Suggestion: ' + protect_html(repls) + '\n'
+    msg += 'Suggestion: ' + protect_title(repls) + '\n'
 
     txt = txt[:beg] + '>>>' + txt[beg:end] + '<<<' + txt[end:]
-    msg += 'Context: ' + protect_html(txt)
+    msg += 'Context: ' + protect_title(txt)
 
     style = highlight_style_unsure if unsure else highlight_style
     beg_tag = '<span style="' + style + '" title="' + msg + '">'
